@@ -1098,16 +1098,26 @@ static void gen_expr(Node *node) {
     println("  lea %s(%%rip), %%rax", node->unique_label);
     return;
   case ND_CAS: {
+    // cmpxchg compares and stores object representations, so a float
+    // or a double goes through the general-purpose registers as well.
+    Type *ty = node->cas_addr->ty->base;
+    bool is_fp = (ty->kind == TY_FLOAT || ty->kind == TY_DOUBLE);
+
     gen_expr(node->cas_addr);
     push();
     // [C11 7.17.7.4] The desired value is converted to the type of
     // the object.
     gen_expr(node->cas_new);
-    cast(node->cas_new->ty, node->cas_addr->ty->base);
+    cast(node->cas_new->ty, ty);
+    if (is_fp)
+      println("  %s %%xmm0, %s", ty->size == 4 ? "movd" : "movq", reg_ax(ty->size));
     push();
     gen_expr(node->cas_old);
     println("  mov %%rax, %%r8");
-    load(node->cas_old->ty->base);
+    if (is_fp)
+      println("  mov (%%rax), %s", reg_ax(ty->size));
+    else
+      load(node->cas_old->ty->base);
     pop("%rdx"); // new
     pop("%rdi"); // addr
 
@@ -1130,6 +1140,17 @@ static void gen_expr(Node *node) {
     pop("%rdi");
 
     int sz = node->lhs->ty->base->size;
+
+    // xchg has no SSE form: a float or a double is exchanged as its
+    // object representation.
+    if (node->ty->kind == TY_FLOAT || node->ty->kind == TY_DOUBLE) {
+      char *mov = (sz == 4) ? "movd" : "movq";
+      println("  %s %%xmm0, %s", mov, reg_ax(sz));
+      println("  xchg %s, (%%rdi)", reg_ax(sz));
+      println("  %s %s, %%xmm0", mov, reg_ax(sz));
+      return;
+    }
+
     println("  xchg %s, (%%rdi)", reg_ax(sz));
 
     // xchg has replaced only the low byte or word of %eax; the rest
